@@ -17,6 +17,7 @@ where
 
 pub(crate) trait Index: Copy + Clone + FixedSize + PartialEq + Display {
     fn zero() -> Self;
+    fn max() -> Self;
     fn next(self) -> Self;
     fn widen_to_u16(self) -> u16;
 
@@ -62,6 +63,9 @@ impl Index for u8 {
     fn zero() -> Self {
         0
     }
+    fn max() -> Self {
+        u8::MAX
+    }
     fn next(self) -> Self {
         self + 1
     }
@@ -77,6 +81,9 @@ impl Index for u8 {
 impl Index for u16 {
     fn zero() -> Self {
         0
+    }
+    fn max() -> Self {
+        u16::MAX
     }
     fn next(self) -> Self {
         self + 1
